@@ -377,6 +377,8 @@ def write_parse_pool(sdir, size='quick'):
     C2 = dict(ff=['f3'], af=['g2'], acc=False, cname='f3,g2')
     C3 = dict(ff=[], af=[], acc=True, cname='accessor')
     C4 = dict(ff=['f1', 'f2'], af=['g1'], acc=True, cname='f1,f2,g1+accessor')
+    C5 = dict(ff=[], af=['g1'], acc=False, cname='g1 only')
+    C6 = dict(ff=['f1'], af=[], acc=False, cname='f1 only')
     pool = [
         ('$.a', C0), ('$.a', C3), ('$.a', C1), ('$.a.f1()', C1), ('$.a.f1()', C2), ('$.a.f1()', C0), ('$.x.b.g1()', C4), ('$.x.b.g2()', C2),
         ('[?(@.a)]', C0), ('[?(!@.a)]', C3), ('a', C0), ("['a','b']", C3), ('$[?(@.a == 1)]', C0), ('$[?(@.a.f1())]', C1),
@@ -384,6 +386,8 @@ def write_parse_pool(sdir, size='quick'):
         ('$[?(@.a == @.b)]', C0), ('$[?(@.* == 1)]', C0), ('$.a b', C4),
         ('$.x[?(@.b.nosuch())]', C1), ('$.x[?(@.a == $[99999999999999999999])]', C0), ('$.x[?(@.a > 1 && @[(x)])]', C3), ('$.x[?(@.a', C0),
         ('$.x[?($.a.f3() == @.b.nosuch())]', C2),
+        # a Config without functions of one kind right after one that has them
+        ('$.a.f1()', C3), ('$.a.f1()', C5), ('$.x.b.g1()', C6), ('$.x.b.g1()', C3),
     ]
     if size != 'quick':
         pool += [('$..a', C3), ('$[?(@.a.f1() == 1)]', C4), ('$.x[?(@.a =~ /a/)]', C0), ('$.x[?(@.a == "1\\")]', C0), ('*', C0), ('$[0:1]', C3),
